@@ -12,9 +12,9 @@ _PENDING = "check not built yet in this round (contracts planned in DESIGN.md se
 CHECKS = {
     "C01": {
         "category": "proof",
-        "text": "The time loop of simulate() (both classes) is summarised exactly as the recurrence row[i+1] = body(row[i], i) by executing the body once at a symbolic step with the contracts of _build_matrix and _solve in place. Proved by induction over that recurrence, each step a quantifier-free SMT obligation at a Skolem arg-max/arg-min: level 0 within bounds, frac-face right-hand side uses the matrix's own coefficient, mesh numbers non-negative, upper/lower bound preserved, spatial monotonicity preserved under constant drawdown, the only self-reproducing level is the constant m_f (0 for the ideal reservoir); the callee contracts and FlowProperties.valid() are re-verified as dependency obligations. 20 obligations. Monotonicity in time beyond node 0 and convergence to the steady state have no inductive invariant: BOUNDED run-time clauses (known finding F3 lives there).",
+        "text": "The time loop of simulate() (both classes) is summarised exactly as the recurrence row[i+1] = body(row[i], i) by executing the body once at a symbolic step with the contracts of _build_matrix and _solve in place. Proved by induction over that recurrence, each step a quantifier-free SMT obligation at a Skolem arg-max/arg-min: level 0 within bounds, frac-face right-hand side uses the matrix's own coefficient, mesh numbers non-negative, upper/lower bound preserved, spatial monotonicity preserved under constant drawdown, the only self-reproducing level is the constant m_f (0 for the ideal reservoir); IdealReservoir is non-increasing in time at every node on every non-decreasing time grid (invariant: each level is discretely concave, (L u)_j >= 0, preserved because the step matrix I + k L commutes with the stencil; then u_i[j] - x_j = k (L x)_j >= 0); the callee contracts and FlowProperties.valid() are re-verified as dependency obligations. 26 obligations. For SinglePhaseReservoir monotonicity in time has no inductive invariant (the frac-face row's right-hand side is indefinite; it is in fact false on jumping step sizes: known finding F3) and convergence to the steady state is a limit: BOUNDED run-time clauses.",
         "note": "Exact linear solve (C04), reals, interp1d/min/max models, arg-max existence and induction on the step index are trusted schemas; time grid non-decreasing and p_f <= p_i inside the table are preconditions.",
-        "technique": "VC generation from the AST with loop recurrence summarisation; induction with explicit instantiation, SMT (z3 NRA); bounded run-time contracts for time-monotonicity",
+        "technique": "VC generation from the AST with loop recurrence summarisation; induction with explicit instantiation, SMT (z3 NRA); bounded run-time contracts for time-monotonicity of the single-phase class and convergence to the steady state",
     },
     "C02": {
         "category": "other",
@@ -24,7 +24,7 @@ CHECKS = {
     },
     "C03": {
         "category": "other",
-        "text": "Proved: both recoveries are 0 at the first time, the in-place recovery never exceeds 1 - rho(L)/rho(m_i) (C01 lower/upper bounds + monotone density map + monotone finite sums), the scaling factor is the interpolant of c mu z/(2p) at p_i, FVF scales, flux stencil / trapezoid over stored times / frames as dependencies (10 obligations). Agreement of flux-based and in-place recovery within first-order error shrinking under refinement, monotone recovery and the ideal plateau are a-priori error statements: BOUNDED run-time contracts on exactly consistent synthetic tables and the shipped tables. Level 'other'.",
+        "text": "Proved: both recoveries are 0 at the first time, the in-place recovery never exceeds 1 - rho(L)/rho(m_i) (C01 lower/upper bounds + monotone density map + monotone finite sums), the scaling factor is the interpolant of c mu z/(2p) at p_i, FVF scales, the flux-based recovery of the ideal reservoir is non-decreasing on every non-decreasing time grid (flux stencil = (L u)_1 + 2 (u_1 - u_0) >= 0 on a concave non-decreasing level, C01), flux stencil / trapezoid over stored times / frames as dependencies (20 obligations). Agreement of flux-based and in-place recovery within first-order error shrinking under refinement, monotone recovery of the single-phase class and the ideal plateau are a-priori error statements: BOUNDED run-time contracts on exactly consistent synthetic tables and the shipped tables. Level 'other'.",
         "note": "Sum monotonicity and monotone piecewise-linear interpolation are trusted schemas; 'consistent table' enters as density positive and non-decreasing in scaled pseudopressure.",
         "technique": "VC generation from the AST; SMT/CAS lemmas over the recovery terms; bounded run-time contracts for the error statements",
     },
